@@ -84,10 +84,29 @@ func (e *gmpExec) Do(in M) any {
 		if err := app.BankKeeper.SendCoins(e.ctx, chain.SenderAccount.GetAddress(), acct, fund); err != nil {
 			panic(err)
 		}
+		// the packet is delivered through IBCModule.OnRecvPacket with a source client id that differs from the
+		// destination client id; "srcacct" is the account of (SOURCE client, sender, salt) - another triple,
+		// which this packet must never be able to act for
+		srcClient := "07-tendermint-4242"
+		if srcClient == client {
+			srcClient = "07-tendermint-4243"
+		}
+		srcID := gmptypes.NewAccountIdentifier(srcClient, sender, salt)
+		srcAddrStr, err := app.GMPKeeper.GetOrComputeICS27Address(ctx, &srcID)
+		if err != nil {
+			panic(err)
+		}
+		srcAcct := sdk.MustAccAddressFromBech32(srcAddrStr)
+		if err := app.BankKeeper.SendCoins(e.ctx, chain.SenderAccount.GetAddress(), srcAcct, fund); err != nil {
+			panic(err)
+		}
 		ctx, write = e.ctx.CacheContext()
 		who := func(s string) sdk.AccAddress {
-			if s == "acct" {
+			switch s {
+			case "acct":
 				return acct
+			case "srcacct":
+				return srcAcct
 			}
 			return chain.SenderAccount.GetAddress()
 		}
@@ -122,7 +141,16 @@ func (e *gmpExec) Do(in M) any {
 		for i := range before {
 			before[i] = bal(gmpRecipient(i))
 		}
-		_, err = app.GMPKeeper.OnRecvPacket(ctx, &data, client)
+		// error class from the keeper on a throw-away branch; the state-changing delivery goes through the module
+		ctxK, _ := e.ctx.CacheContext()
+		_, err = app.GMPKeeper.OnRecvPacket(ctxK, &data, client)
+		pbz, perr := gmptypes.MarshalPacketData(&data, gmptypes.Version, gmptypes.EncodingProtobuf)
+		if perr != nil {
+			panic(perr)
+		}
+		res := gmp.NewIBCModule(app.GMPKeeper).OnRecvPacket(ctx, srcClient, client, 1,
+			channeltypesv2.NewPayload(gmptypes.PortID, gmptypes.PortID, gmptypes.Version, gmptypes.EncodingProtobuf, pbz), chain.SenderAccount.GetAddress())
+		moduleOK := res.Status == channeltypesv2.PacketStatus_Success
 		effects := []int{}
 		for i := range before {
 			if !bal(gmpRecipient(i)).Equal(before[i]) {
@@ -158,6 +186,10 @@ func (e *gmpExec) Do(in M) any {
 			known = append(known, k)
 		}
 		sort.Strings(known)
+		if moduleOK != (cls == "ok") {
+			// the module did not do what the keeper does for (destination client, sender, salt)
+			cls = "module-keeper-disagree:" + cls
+		}
 		return M{"r": cls, "address": hex.EncodeToString(recBz), "effects": effects, "known": known}
 	case "send":
 		signer := sdk.AccAddress([]byte(S(in, "signer") + "_signer_address__")[:20])
@@ -264,6 +296,9 @@ func gmpMsgs(r *Rng) []M {
 	msgs := []M{}
 	for i := 0; i < n; i++ {
 		m := M{"kind": "send", "signers": []string{Pick(r, []string{"acct", "acct", "acct", "acct", "acct", "other"})}, "handlerOk": !r.Chance(0.12)}
+		if r.Chance(0.06) {
+			m["signers"] = []string{"srcacct"}
+		}
 		switch r.Intn(14) {
 		case 0:
 			m["kind"], m["signers"], m["handlerOk"] = "multisend", []string{}, false
@@ -367,6 +402,9 @@ func gmpMonitor(r *Rng, n int, report func(Viol)) {
 		}
 		if out["r"] != "ok" && len(effects) > 0 {
 			v("failed GMP packet left effects behind (not atomic)")
+		}
+		if rs, _ := out["r"].(string); strings.HasPrefix(rs, "module-keeper-disagree") {
+			v("IBCModule.OnRecvPacket did not act for exactly the account of (destination client, sender, salt)")
 		}
 		if a, ok := addrOf[tk]; ok && out["r"] == "ok" && a != out["address"] {
 			v("the account address of a triple changed")
